@@ -465,7 +465,7 @@ func vcRunC07(t *vcTrial, cfg vc07Cfg) {
 		posBefore := readPos
 		desc := fmt.Sprintf("read #%d %s(%d) class=%s timeout=%s/%v lenAtCall=%d", i, op, n, class, tk, d, res.lenAt)
 		if res.pan != nil {
-			t.Violate("C07", "panic", "%s panicked: %v", desc, res.pan)
+			t.Violate("C07", "panic", "%s panicked: %v at %s", desc, res.pan, vfPanicSite(res.stack))
 			t.P("panic_stack", res.stack)
 			return
 		}
